@@ -8,12 +8,13 @@ extern "C" void h_read(void) {
     int L = vp_param(0);
     vp_file_init(L);
     unsigned char* d = vp_file_data();
+    if (L > 1) { d[0] = 'B'; d[1] = 'M'; }
     // selector fields concrete: header size, bits per pixel, compression; dimensions small
     if (L > 17) { d[14] = (unsigned char)vp_param(1); d[15] = 0; d[16] = 0; d[17] = 0; }
     if (L > 29) { d[28] = (unsigned char)vp_param(2); d[29] = 0; }
     if (L > 33) { d[30] = (unsigned char)vp_param(3); d[31] = 0; d[32] = 0; d[33] = 0; }
-    if (L > 21) { vp_assume(d[18] <= 3); d[19] = 0; d[20] = 0; d[21] = 0; }
-    if (L > 25) { vp_assume(d[22] <= 2); d[23] = 0; d[24] = 0; d[25] = 0; }
+    if (L > 21) { d[18] = (unsigned char)vp_param(4); d[19] = 0; d[20] = 0; d[21] = 0; }
+    if (L > 25) { d[22] = (unsigned char)vp_param(5); d[23] = 0; d[24] = 0; d[25] = 0; }
     FILE* f = (FILE*)vp_fopen_read();
     gil::rgb8_image_t img;
     int outcome = 0;
